@@ -249,8 +249,12 @@ class Gen:
                    + ('' if one_way else f'<wsdl:output>{ohb}<soap:body{op} use="literal"/></wsdl:output>') + '</wsdl:operation>\n')
         svc = style(rng, rng.sample(WORDS, 2), 't')
         svc = ''.join(x.capitalize() for x in svc.replace('_', ' ').split()) if '_' in svc else svc[0].upper() + svc[1:]
+        # the definitions often have a namespace of their own, different from the one of the inline schema
+        # (not together with `tns` re-declared by the inline schema for ANOTHER URI: zeep's prefix table is flat, an inner xmlns
+        # that shadows an outer prefix is a limitation noted in DESIGN 8.6, outside what the corpus claims)
+        wsdl_ns = uris[w0] if (own_tns or urng.random() < 0.5) else 'http://verif.example/ws'
         txt = (f'<wsdl:definitions xmlns:wsdl="http://schemas.xmlsoap.org/wsdl/" xmlns:soap="http://schemas.xmlsoap.org/wsdl/soap/" xmlns:xs="{XS}" '
-               f'xmlns:tns="{uris[w0]}" {decl} targetNamespace="{uris[w0]}">\n<wsdl:types>\n{schema_text(w0)}</wsdl:types>\n{msgs}'
+               f'xmlns:tns="{wsdl_ns}" {decl} targetNamespace="{wsdl_ns}">\n<wsdl:types>\n{schema_text(w0)}</wsdl:types>\n{msgs}'
                f'<wsdl:portType name="Port">\n{pt}</wsdl:portType>\n<wsdl:binding name="Bind" type="tns:Port"><soap:binding style="document" transport="http://schemas.xmlsoap.org/soap/http"/>\n{bd}</wsdl:binding>\n'
                f'<wsdl:service name="{svc}Service"><wsdl:port name="p" binding="tns:Bind"><soap:address location="https://svc.example.org/{w0}/v{rng.randint(1, 9)}{rng.choice(["", "", "?ws=1&amp;v=2", "/index.php?op=x"])}"/></wsdl:port></wsdl:service>\n</wsdl:definitions>\n')
         p = os.path.join(outdir, 'main.wsdl')
